@@ -235,6 +235,25 @@ pub fn run(v: &serde_json::Value, rep: &mut Report) -> Result<(), String> {
                     rep.violation("C10", "restore.same_content", format!("step={step}: restored level lists {} orders / aggregates ({}, {}, {}), original {} / ({}, {}, {})", b.len(), restored.visible_quantity(), restored.hidden_quantity(), restored.order_count(), a.len(), level.visible_quantity(), level.hidden_quantity(), level.order_count()));
                     rep.violation("C11", "restore.same_content", format!("step={step}: the restored level does not hold the same orders as the original"));
                 }
+                // C10 "figures carried by the input are never believed": the same snapshot / level data with every aggregate
+                // field falsified must rebuild a level whose aggregates are derived from the orders
+                {
+                    let sums = |l: &PriceLevel| { let ls = l.iter_orders(); (ls.iter().map(|o| o.visible_quantity() as u128).sum::<u128>(), ls.iter().map(|o| o.hidden_quantity() as u128).sum::<u128>(), ls.len()) };
+                    let mut bad = level.snapshot();
+                    bad.visible_quantity = bad.visible_quantity.wrapping_add(7); bad.hidden_quantity = bad.hidden_quantity.wrapping_add(3); bad.order_count = bad.order_count.wrapping_add(1);
+                    match PriceLevel::from_snapshot(bad) {
+                        Ok(t) => { let (sv, sh, n) = sums(&t); if t.visible_quantity() as u128 != sv || t.hidden_quantity() as u128 != sh || t.order_count() != n || listing(&t) != a {
+                            rep.violation("C10", "restore.input_aggregates_never_believed", format!("step={step}: from_snapshot of a snapshot with falsified aggregates yields aggregates ({}, {}, {}) for orders summing to ({sv}, {sh}, {n})", t.visible_quantity(), t.hidden_quantity(), t.order_count())); } }
+                        Err(_) => {} // rejecting the input is not believing it
+                    }
+                    let mut data = pricelevel::PriceLevelData::from(&level);
+                    data.visible_quantity = data.visible_quantity.wrapping_add(5); data.hidden_quantity = data.hidden_quantity.wrapping_add(9); data.order_count = data.order_count.wrapping_add(2);
+                    match PriceLevel::try_from(data) {
+                        Ok(t) => { let (sv, sh, n) = sums(&t); if t.visible_quantity() as u128 != sv || t.hidden_quantity() as u128 != sh || t.order_count() != n || listing(&t) != a {
+                            rep.violation("C10", "restore.input_aggregates_never_believed", format!("step={step}: a level built from level data with falsified aggregates reports ({}, {}, {}) for orders summing to ({sv}, {sh}, {n})", t.visible_quantity(), t.hidden_quantity(), t.order_count())); } }
+                        Err(_) => {}
+                    }
+                }
                 {
                     let mut seen: Vec<OrderId> = vec![];
                     for t in tickets.iter() { if a.contains_key(t) && !seen.contains(t) { seen.push(*t); } }
